@@ -41,7 +41,7 @@ def vary_motions(node, rng, params):
     """make some motions parameter-dependent (Gen only produces constant rotations)"""
     for kid in node.kids:
         vary_motions(kid, rng, params)
-    if node.kind == "rotate" and params and rng.random() < 0.5:
+    if node.kind == "rotate" and params and not node.pfs[0].vars() and not node.pfs[1].vars() and rng.random() < 0.5:
         m, ctr = node.pfs
         co, si = m.terms[0][1], m.terms[2][1]
         p = rng.choice(params)
@@ -117,9 +117,9 @@ def indep_corners(node, rng, params, prob=0.5):
 
 def make_case(ctx, idx):
     rng = ctx.rng
-    mode = rng.choice(["solid2", "solid2", "solid2", "solid2", "solid1", "solid3", "prod", "prod", "bdry", "prim", "prim", "cornerwise", "cornerwise"])
+    mode = rng.choice(["solid2", "solid2", "solid2", "solid2", "solid1", "solid3", "prod", "prod", "bdry", "prim", "prim", "cornerwise", "cornerwise", "rowcomposite"])
     params = rng.choice([[], ["t"], ["t"], ["t", "D"]])
-    if mode == "cornerwise" and not params:
+    if mode in ("cornerwise", "rowcomposite") and not params:
         params = ["t"]
     g = Gen(rng, params=params)
     depth = rng.choice([1, 2, 2, 3, 3]) if ctx.quick else rng.choice([1, 2, 3, 3, 4])
@@ -130,6 +130,27 @@ def make_case(ctx, idx):
         node = g.prim(rng.choice(["x", "x", "y", "z"]))
     elif mode == "cornerwise":
         node = indep_prim2(rng, params, "x")
+    elif mode == "rowcomposite":
+        # a union / intersection / product with an operand whose motion depends on parameters, several rows:
+        # the operand returns one box per row, the composite has to reduce them to the common box
+        g0 = Gen(rng, params=params, p_dep=1.0)
+        inner = g.prim2("x")
+        if rng.random() < 0.5:
+            moved = Node("translate", "x", [PF([g0.aff(dy(rng, -2, 2), 2), g0.aff(dy(rng, -2, 2), 2)])], [inner])
+        else:
+            co, si = rng.choice([(Fr(3, 5), Fr(4, 5)), (Fr(5, 13), Fr(12, 13)), (Fr(-4, 5), Fr(3, 5))])
+            a_ = ("+", c(co), ("*", c(dy(rng, 0.25, 1, 4)), v(rng.choice(params))))
+            moved = Node("rotate", "x", [PF([a_, c(-si), c(si), a_]), PF([c(dy(rng, -1, 1)), c(dy(rng, -1, 1))])], [inner])
+        if rng.random() < 0.3:
+            moved = Node("cut", None, [], [moved, g.prim2("x")])
+        op = rng.choice(["union", "inter", "prod", "union"])
+        if op == "prod":
+            other = Gen(rng, params=params).prim1("y")
+            node = Node("prod", None, [], [moved, other] if rng.random() < 0.5 else [other, moved])
+        else:
+            node = Node(op, None, [], [moved, g.solid(2, "x")] if rng.random() < 0.5 else [g.solid(2, "x"), moved])
+        if rng.random() < 0.3:
+            node = Node("translate", "x", [g.vec([dy(rng, -1, 1), dy(rng, -1, 1)])], [node]) if op != "prod" else node
     elif mode == "solid1":
         g.allow_rotate = False
         node = g.solid(min(depth, 3), "y")
@@ -149,14 +170,14 @@ def make_case(ctx, idx):
     else:
         inner = g.solid(min(depth, 2), rng.choice(["x", "x", "y", "z"]))
         node = Node("bdry", None, [], [inner])
-    if params and mode != "cornerwise":
+    if params and mode not in ("cornerwise", "rowcomposite"):
         if node.kind in ("par", "tri") and node.var == "x" and rng.random() < 0.5:
             node = indep_prim2(rng, params, "x")
         else:
             indep_corners(node, rng, params)
     vary_motions(node, rng, params)
     pvars = params + data_vars
-    if mode == "cornerwise":
+    if mode in ("cornerwise", "rowcomposite"):
         k = rng.choice([2, 2, 3, 3, 1])
     elif pvars:
         k = rng.choice([1, 1, 2, 3])
@@ -661,6 +682,27 @@ def opaque_cases(ctx, rep):
                   params=tp.spaces.Points.empty(), tight=ext)
         except ImportError:
             rep.count("opaque:shapely-missing")
+        # motions and Boolean operations over the unmodelled primitives (exact images of the vertices / the point)
+        try:
+            co, si = rng.choice([(Fr(3, 5), Fr(4, 5)), (Fr(5, 13), Fr(-12, 13)), (Fr(-4, 5), Fr(3, 5)), (Fr(8, 17), Fr(15, 17))])
+            ctr2 = [dy(rng, -1, 1), dy(rng, -1, 1)]
+            sh = [dy(rng, -2, 2), dy(rng, -2, 2)]
+            def img(p_):
+                qx, qy = Fr(p_[0]) - ctr2[0], Fr(p_[1]) - ctr2[1]
+                return [co * qx - si * qy + ctr2[0] + sh[0], si * qx + co * qy + ctr2[1] + sh[1]]
+            Mf = [[float(co), float(-si)], [float(si), float(co)]]
+            moved = tp.domains.Translate(tp.domains.Rotate(poly, Mf, [float(a) for a in ctr2]), [float(a) for a in sh])
+            check("Translate(Rotate(ShapelyPolygon))", moved, [img(a) for a in vs], dict(polygon=vs, rotation=[str(co), str(si)], around=[str(a) for a in ctr2], shift=[str(a) for a in sh]))
+            movedp = tp.domains.Translate(tp.domains.Rotate(tp.domains.Point(X2, p), Mf, [float(a) for a in ctr2]), [float(a) for a in sh])
+            check("Translate(Rotate(Point))", movedp, [img(p)], dict(point=p, rotation=[str(co), str(si)], around=[str(a) for a in ctr2], shift=[str(a) for a in sh]))
+            disc = tp.domains.Circle(X2, [float(dy(rng, -2, 2)), float(dy(rng, -2, 2))], float(dy(rng, 0.5, 2)))
+            check("ShapelyPolygon + Circle", poly + disc, vs, dict(polygon=vs, union_with="circle"))
+        except ImportError:
+            pass
+        except NameError:
+            pass
+        except Exception as ex:  # noqa  (constructors of motions over polygons may still raise: necessary_variables, C17)
+            rep.count("opaque:motion-constructor-raised:" + type(ex).__name__)
         # polyhedron
         try:
             from torchphysics.problem.domains.domain3D.trimesh_polyhedron import TrimeshPolyhedron
